@@ -148,13 +148,19 @@ def rule_cancel(ctx):
               'after reading the state, open_db cancels an unfinished compaction exactly when not opened for compacting',
               'open_db does not cancel an unfinished compaction exactly under `not compacting` after read_state', loc=ctx.loc(od, od.node))
     n += 1
-    body_ok = False
-    ifs = [s for s in cc.node.body if isinstance(s, ast.If)]
-    if len(ifs) == 1:
-        t = ifs[0].test
-        cond = isinstance(t, ast.Compare) and isinstance(t.ops[0], ast.NotEq) and norm(t.left) == 'self.comp_cursor' and const_value(t.comparators[0]) == -1
-        sets = {norm(s.targets[0]): norm(s.value) for s in ifs[0].body if isinstance(s, ast.Assign)}
-        body_ok = cond and sets == {'self.comp_flush_count': '-1', 'self.comp_cursor': '-1'}
+    # every way through: unless the cursor is already -1, both progress fields are reset
+    from .. import paths as P
+    ps = P.paths(cc.node.body)
+    body_ok = bool(ps)
+    resetting = 0
+    for pth in ps:
+        started = P.decided(ctx, cc, pth, 'self.comp_cursor != -1')
+        sets = {norm(st.targets[0]): norm(st.value) for st, _e in pth.events if isinstance(st, ast.Assign) and len(st.targets) == 1}
+        if started is False:
+            continue
+        resetting += 1
+        body_ok = body_ok and pth.exit in ('fall', 'return') and sets.get('self.comp_flush_count') == '-1' and sets.get('self.comp_cursor') == '-1'
+    body_ok = body_ok and resetting >= 1
     ctx.check(body_ok, 'C14.CANCEL', ctx.key(cc, None, 'resets progress'),
               'cancelling resets comp_cursor and comp_flush_count to -1', 'cancelling does not reset both progress fields to -1',
               loc=ctx.loc(cc, cc.node))
